@@ -278,10 +278,7 @@ class FactFlow:
                         out.add(("GE0", tn))
                     out.add(("EQ", tn, str(ci)))
                 elif self.ival is not None and isinstance(v, (ast.BinOp, ast.IfExp, ast.Subscript, ast.Name)):
-                    try:
-                        lo, hi = self.ival(v, self._pre)
-                    except Exception:
-                        lo, hi = float("-inf"), float("inf")
+                    lo, hi = self.ival(v, self._pre)
                     if lo != float("-inf") or hi != float("inf"):
                         out.add(("INT", tn, lo, hi))
                     if lo != float("-inf") and lo >= 0:
@@ -333,10 +330,7 @@ class FactFlow:
                     out.add(("GE0", el.id))
                     out.add(("INT", el.id, 0, float("inf")))
         if isinstance(s, ast.AugAssign) and isinstance(s.target, ast.Name) and self.ival is not None:
-            try:
-                lo, hi = self.ival(ast.BinOp(left=ast.Name(id=s.target.id, ctx=ast.Load()), op=s.op, right=s.value), self._pre)
-            except Exception:
-                lo, hi = float("-inf"), float("inf")
+            lo, hi = self.ival(ast.BinOp(left=ast.Name(id=s.target.id, ctx=ast.Load()), op=s.op, right=s.value), self._pre)
             if lo != float("-inf") or hi != float("inf"):
                 out.add(("INT", s.target.id, lo, hi))
             if lo >= 0:
@@ -360,12 +354,9 @@ class FactFlow:
         if ci is not None:
             return ci >= 0
         if self.ival is not None:
-            try:
-                lo, _hi = self.ival(e, facts)
-                if lo >= 0:
-                    return True
-            except Exception:
-                pass
+            lo, _hi = self.ival(e, facts)
+            if lo >= 0:
+                return True
         if isinstance(e, ast.Name):
             return ("GE0", e.id) in facts or any(f[0] == "IDX" and f[1] == e.id for f in facts) or any(f[0] == "INT" and f[1] == e.id and f[2] >= 0 for f in facts)
         if isinstance(e, ast.Call) and isinstance(e.func, ast.Name) and e.func.id == "len":
